@@ -295,6 +295,26 @@ func simpleData(name string, content []byte) []byte {
 	return c13.TLV(6, body)
 }
 
+// genLinkCut feeds consistently truncated packets to the link service, bare and as the fragment of an LpPacket.
+func genLinkCut(g *common.Gen, cut [][]byte) {
+	if len(cut) == 0 {
+		return
+	}
+	per := 40
+	for i := 0; i < len(cut); i += per {
+		g.Op("new link 2 1")
+		g.Stat("link-history")
+		for j := i; j < i+per && j < len(cut); j++ {
+			if len(cut[j]) == 0 || (cut[j][0] != 5 && cut[j][0] != 6) {
+				continue
+			}
+			g.Op("frame %s", common.Hex(cut[j]))
+			g.Op("frame %s", common.Hex(lpFrame(nil, nil, nil, nil, cut[j])))
+			g.Stat("frame-cut-repair")
+		}
+	}
+}
+
 func genLink(g *common.Gen, packets [][]byte) {
 	thorough := common.Thorough()
 	kt := knownTypes()
